@@ -172,7 +172,7 @@ CHECK = {
         "impl_bin": "impl_c26", "extract": "Extract/ExC26.v", "driver": "run_c26.ml",
         "gen": gen, "nontrivial": nontrivial, "classify": classify, "release_too": True,
         "exhaustive": {"quick": False, "thorough": False},
-        "rule": ("seeded single-stream histories through Server::handle_message on a one-zone catalog (one Server per case): "
+        "rule": ("seeded single-stream histories through Server::handle_message on a one-zone catalog (one Server per case): [query kinds incl. wildcard ANY / no-data / CNAME answers and BADVERS] "
                  "rates 1..12 / windows 1..8 mostly, boundary and rejected configurations, slip 0/1/2/3/10, table sizes 1/2/7/65537, "
                  "streams NOERROR (answer, NODATA, wildcard), NXDOMAIN, REFUSED, FORMERR, with and without EDNS; each history is "
                  "1-6 phases of (idle period, burst): idle periods 0, sub-second, whole seconds around the window, 1 s +- 1 ns, "
